@@ -66,3 +66,9 @@ func VerifSigHdrs() ([]HdrT, []HdrSigId, HdrFlags) {
 	return append([]HdrT(nil), sigHdrs[:]...),
 		append([]HdrSigId(nil), hdr2SigId[:]...), sigHdrsFlags
 }
+
+// VerifStrCharsSig exposes getStrCharsSig(s, 0, 0) (first result).
+func VerifStrCharsSig(s []byte) StrSigId {
+	r, _ := getStrCharsSig(s, 0, 0)
+	return r
+}
